@@ -18,7 +18,9 @@ void h_getSubsystem(void)      { struct StateImpl* st; int i; StateImpl_getSubsy
    domain: each assertion below is a complete proof of its clause.
    (dfcc units with three nested fresh objects cost 30-90 s each here; these cost < 2 s.)
    ===================================================================================== */
-int ghost_j, ghost_k, ghost_c, ghost_d;
+int ghost_j, ghost_k, ghost_c, ghost_d, vf_any_subsys;
+/* the ghost indices are ARBITRARY: globals are zero-initialised in C, so every harness havocs them first */
+static void havoc_ghosts(void) { int a, b, c, d, e; ghost_j = a; ghost_k = b; ghost_c = c; ghost_d = d; vf_any_subsys = e; ghost_threw = 0; }
 static struct StateImpl W_st; static struct PerSubsystemInfo W_ss; static struct CacheEntryInfo W_ce;
 static struct PerSubsystemInfo W_ss_other; static struct CacheEntryInfo W_ce_other; static struct DiscreteVarInfo W_dv, W_dv_other;
 
@@ -60,6 +62,7 @@ struct DiscreteVarInfo* vf_discreteInfo_at(const struct PerSubsystemInfo* self, 
 
 /* the world: state W_st, its subsystem ghost_k = W_ss, whose cache entry ghost_c = W_ce */
 static void world(void) {
+  havoc_ghosts();
   struct StateImpl a; struct PerSubsystemInfo b; struct CacheEntryInfo c;
   W_st = a; W_ss = b; W_ce = c;
   W_st.g_sub = &W_ss; W_ss.g_ce = &W_ce; W_ss.g_dv = &W_dv;
@@ -180,6 +183,7 @@ void h_L_ce_invalidate(void) {
      (stamp <= src.ver[d], L-valid) can look valid in the copy; L-valid holds for the copied entry
      (g_fresh travels with it); the source is not modified. */
 void h_sub_copyFrom(void) {
+  havoc_ghosts();
   struct PerSubsystemInfo dst, src; struct CacheEntryInfo dce, sce; Stage maxStage;
   dst.g_ce = &dce; src.g_ce = &sce;
   __CPROVER_assume(SUB_WF(&dst) && SUB_WF(&src) && STAGE_OK(maxStage) && GHOST_J_OK);
@@ -202,6 +206,7 @@ void h_sub_copyFrom(void) {
    well-formed subsystem satisfies the invariant with g_fresh == false: it cannot read as valid before
    it is marked (or its computed-by stage is reached) */
 void h_L_initial(void) {
+  havoc_ghosts();
   struct PerSubsystemInfo ss; struct CacheEntryInfo ce;
   __CPROVER_assume(SUB_WF(&ss));
   ce.m_valueVersion = INIT_CE_m_valueVersion;
@@ -225,7 +230,6 @@ static bool st_same_sys(const struct StateImpl* a, const struct StateImpl* b) {
   for (int i = 0; i < Stage_NValid; i++) eq = eq && a->systemStageVersions[i] == b->systemStageVersions[i];
   return eq;
 }
-int vf_any_subsys;
 static void world_sys(void) {
   world();
   __CPROVER_assume(SYS_WF(&W_st) && GHOST_J_OK && ghost_threw == 0);
@@ -277,6 +281,12 @@ void invalidateAll(struct StateImpl* self, Stage g) {
 }
 #endif
 
+/* vacuity guard: the ghost indices are not pinned (checked with --cover) */
+void h_cover_ghosts(void) {
+  world_sys(); __CPROVER_assume(CE_INV(&W_ss, &W_ce));
+  if (ghost_j == 7 && ghost_k == 2 && ghost_c == 3 && W_ss.currentStage == 9 && W_st.currentSystemStage == 8 && W_ce.m_dependsOnStage == 5 && W_ce.g_fresh) __CPROVER_cover(1);
+  if (ghost_j == 0 && ghost_k == 0 && ghost_c == 0 && W_ss.currentStage == 0 && W_st.currentSystemStage == 0 && vf_any_subsys == 1) __CPROVER_cover(1);
+}
 void h_noteChange(void) {
   world_sys(); struct StateImpl st0 = W_st; struct PerSubsystemInfo ss0 = W_ss; int which;
   if (which == 0) noteQChange(&W_st); else if (which == 1) noteUChange(&W_st); else if (which == 2) noteZChange(&W_st); else noteYChange(&W_st);
